@@ -43,7 +43,7 @@ def plan(tier, seed):
 def run(data, opts):
     import logging
 
-    logging.disable(logging.CRITICAL)
+    core.log_off()
     try:
         bursts = opts.get("_bursts")
         stream = S.TrackingStream(data, bursts) if bursts else io.BytesIO(data)
@@ -51,7 +51,7 @@ def run(data, opts):
         return S.read_all(stream, o, handler=(lambda e: None) if o["quitonerror"] == 1 else None,
                           limit=4 * len(data) + 50)
     finally:
-        logging.disable(logging.NOTSET)
+        core.log_on()
 
 
 def is_subsequence(xs, ys):
